@@ -381,5 +381,5 @@ View == <<tabs, rep, pc, cur, rows, gcur, buf, rd, bad>>
 TabKey(t) == [ord |-> t.ord, ix |-> [i \in 1..Len(t.ord) |-> t.idx[t.ord[i]]], la |-> t.la, lu |-> t.lu]
 IdleKey == [N |-> TabKey(tabs.N), P |-> TabKey(tabs.P), D |-> TabKey(tabs.D), rep |-> rep, gcur |-> gcur, buf |-> buf]
 PrintIdle == (pc = "idle" /\ bad = "") => PrintT("IDLE " \o ToJson(IdleKey))
-PrintPools == pc = "new" => PrintT("POOLS " \o ToJson([s |-> PoolS, p |-> PoolP, o |-> PoolO, g |-> PoolG]))
+PrintPools == pc = "new" => PrintT("POOLS " \o ToJson([s |-> PoolS, p |-> PoolP, o |-> PoolO, g |-> PoolG, ns |-> NsPool]))
 =============================================================================
